@@ -33,6 +33,27 @@ extern "C" void h_after_growth(void) {
 #endif
    vp_done();
 }
+// every factory after every factory: a node of a symbolically chosen factory (operands: a symbolically chosen one of C05_PHASES deterministic
+// choices) is tracked while every factory of the zoo is used once with operands drawn from the same pools, twice over with shifted
+// operand choices, so that later requests that share a table, a name or a type with the tracked node occur
+#ifndef C05_PHASES
+#define C05_PHASES 2
+#endif
+extern "C" void h_after_others(void) {
+   unsigned total = zoo::count();
+   zoo::World* w = new zoo::World; w->concrete = true;
+   unsigned which = vp_pick(total); w->tick = vp_pick(C05_PHASES);
+   vp_observe(1, which);
+   Tracker t;
+   zoo::build(*w, which, t);
+   t.snapshot();
+   for (int round = 0; round < 2; ++round) {
+      w->tick = round;
+      for (unsigned k = 0; k < total; ++k) { First_node f; zoo::build(*w, k, f); }
+      t.recheck(6);
+   }
+   vp_done();
+}
 // explicit member additions: the first members of a growing container are re-observed after every later addition
 extern "C" void h_member_growth(void) {
    zoo::World* w = new zoo::World; auto& lx = w->lx;
